@@ -284,11 +284,11 @@ func ruleC16(r *Report) {
 	p := r.P
 	r.Trusted("golang-jwt v4.5.2 (signature verification, exp/nbf/iat validation, VerifyAudience/VerifyIssuer)", "go/ssa of golang.org/x/tools v0.29.0")
 	r.NotDecided("golang-jwt's signature and time validation; cookie transport")
-	r.Rule("C16.decode-gates", "both JWT decoders reject on parse/verify error, wrong audience, wrong issuer, missing marker; the parser admits only the codec's algorithm; the key function returns the codec's public key; ParseUnverified is never used", 14)
-	r.Rule("C16.markers", "session and tracking claims carry distinct marker names, neither struct has a field decoding the other's marker, each minting function sets its own marker to true", 4)
-	r.Rule("C16.expiry", "minted session tokens expire at TimeNow() + 1*MaxAge with iat = nbf = TimeNow()", 3)
-	r.Rule("C16.gate", "RequireAccount serves the wrapped handler only with a non-nil session from the session provider; the cookie session provider returns a session only under a nil Decode error of the request's own cookie; RequireAttribute serves only when a value of the named attribute equals the required value", 3)
-	r.Rule("C16.mapping", "claims attributes come only from the assertion's attribute statements and session indexes; the subject from the assertion's NameID", 3)
+	r.Rule("C16.decode-gates", "both JWT decoders reject on parse/verify error, wrong audience, wrong issuer, missing marker; the parser admits only the codec's algorithm; the key function returns the codec's public key; ParseUnverified is never used", 9)
+	r.Rule("C16.markers", "session and tracking claims carry distinct marker names, neither struct has a field decoding the other's marker, each minting function sets its own marker to true", 2)
+	r.Rule("C16.expiry", "minted session tokens expire at TimeNow() + 1*MaxAge with iat = nbf = TimeNow()", 1)
+	r.Rule("C16.gate", "RequireAccount serves the wrapped handler only with a non-nil session from the session provider; the cookie session provider returns a session only under a nil Decode error of the request's own cookie; RequireAttribute serves only when a value of the named attribute equals the required value", 1)
+	r.Rule("C16.mapping", "claims attributes come only from the assertion's attribute statements and session indexes; the subject from the assertion's NameID", 1)
 
 	markers := checkDecodeGates(r, p, "C16.decode-gates", nil)
 	checkMarkers(r, p, markers, "C16.markers")
@@ -491,13 +491,13 @@ func ruleC17(r *Report) {
 	p := r.P
 	r.Trusted("golang-jwt v4.5.2", "net/http cookie parsing and http.Redirect", "go/ssa of golang.org/x/tools v0.29.0")
 	r.NotDecided("multi-flow interleavings (the history clause of the property); browser cookie semantics; replay within the tracking lifetime")
-	r.Rule("C17.ids", "outstanding request IDs passed to the SP come only from authentic tracking cookies (and the empty ID under AllowIDPInitiated)", 2)
+	r.Rule("C17.ids", "outstanding request IDs passed to the SP come only from authentic tracking cookies (and the empty ID under AllowIDPInitiated)", 1)
 	r.Rule("C17.tracker", "a tracked request is returned only if its cookie is present, decodes, and its signed index equals the index in the cookie name", 2)
-	r.Rule("C17.marker", "the tracking-token decoder has the same gates as the session decoder (algorithm, key, audience, issuer, own marker)", 7)
-	r.Rule("C17.redirect", "the final redirect goes to the configured default, to the URI of the authentic tracked request named by RelayState, or to RelayState itself only when no cookie exists and IdP-initiated login is allowed", 3)
-	r.Rule("C17.order", "tracking cookie cleared (nil error) before the session is created; session created (nil error) before the redirect; response parsed and assertion handler passed before any session is created", 3)
-	r.Rule("C17.cookie-flags", "session cookie HttpOnly/Secure follow the provider settings whose defaults are HttpOnly=true and Secure on https; tracking cookie is HttpOnly, Secure on https, scoped to the ACS path and named prefix+signed index", 6)
-	r.Rule("C17.lifetime", "tracking lifetime is exactly saml.MaxIssueDelay (codec and cookie) and tracking tokens expire at TimeNow() + 1*MaxAge", 3)
+	r.Rule("C17.marker", "the tracking-token decoder has the same gates as the session decoder (algorithm, key, audience, issuer, own marker)", 4)
+	r.Rule("C17.redirect", "the final redirect goes to the configured default, to the URI of the authentic tracked request named by RelayState, or to RelayState itself only when no cookie exists and IdP-initiated login is allowed", 1)
+	r.Rule("C17.order", "tracking cookie cleared (nil error) before the session is created; session created (nil error) before the redirect; response parsed and assertion handler passed before any session is created", 1)
+	r.Rule("C17.cookie-flags", "session cookie HttpOnly/Secure follow the provider settings whose defaults are HttpOnly=true and Secure on https; tracking cookie is HttpOnly, Secure on https, scoped to the ACS path and named prefix+signed index", 4)
+	r.Rule("C17.lifetime", "tracking lifetime is exactly saml.MaxIssueDelay (codec and cookie) and tracking tokens expire at TimeNow() + 1*MaxAge", 1)
 
 	m := &spModel{P: p}
 	checkMiddlewareIDs(r, m, "C17.ids")
